@@ -830,12 +830,31 @@ impl<RequireLeftInput, RequireRightInput> With<Join, JoinBuilder<WithInput, With
         let Join {
             name,
             operator,
-            schema: _,
+            schema,
             size: _,
             left,
             right,
         } = join;
-        let builder = self.name(name).operator(operator).left(left).right(right);
+        // Keep the field names of the join so that relations built on top of it stay valid
+        // when an input is replaced by a relation of the same shape
+        let left_size = left.schema().len();
+        let left_names: Vec<String> = schema
+            .iter()
+            .take(left_size)
+            .map(|f| f.name().to_string())
+            .collect();
+        let right_names: Vec<String> = schema
+            .iter()
+            .skip(left_size)
+            .map(|f| f.name().to_string())
+            .collect();
+        let builder = self
+            .name(name)
+            .operator(operator)
+            .left_names(left_names)
+            .right_names(right_names)
+            .left(left)
+            .right(right);
         builder
     }
 }
